@@ -82,7 +82,7 @@ def check(c: Check):
     m = get_model(c)
     distinct = {}
     for t in m.traces:
-        distinct.setdefault(t.short(), t)
+        distinct.setdefault((t.short(), _asks_for_action_only(t)), t)
     traces = list(distinct.values())
     c.count(len(m.traces))
     c.floor('C01-TS', 'distinct event traces of _PartialExecutor.execute', len(traces), 30)
@@ -102,6 +102,7 @@ def check(c: Check):
     clause_h(c, traces, sk)
     clause_i(c)
     clause_e_full(c)
+    clause_j(c)
     from .common import sweep_records
     sweep_records(c, 'C01-rec', ['exactly_lib.execution'], floor=15)
 
@@ -137,11 +138,18 @@ def clause_a(c: Check, traces: List[Trace], sk, kind_of):
     c.require(full, 'C01-a: no all-success trace found')
     exp = expected_steps(c, kind_of)
     complete = []
+    n_act_only = 0
     for t in full:
         got = {(s.phase, sk(s)) for s in t.steps if s.kind == 'step'}
-        if ('ASSERT', 'MAIN') in got or ('BEFORE_ASSERT', 'MAIN') in got:
-            complete.append((t, got))
+        # the only mode in which a run without failure stops after the action: the configuration asks for the output
+        # of the action to check (exe_atc_and_skip_assertions is given) - decided by the guards of the path, not by
+        # the shape of the trace
+        if _asks_for_action_only(t):
+            n_act_only += 1
+            continue
+        complete.append((t, got))
     c.require(complete, 'C01-a: no complete (non --act) success trace found')
+    c.require(n_act_only >= 1, 'C01-a: no success trace of the mode that runs the action only (--act) found')
     for t, got in complete:
         missing = sorted(exp - got)
         extra = sorted(got - exp)
@@ -173,6 +181,25 @@ def clause_a(c: Check, traces: List[Trace], sk, kind_of):
             prev = (r, name)
         c.expect(bad is None, 'C01-a', 'execute/order/' + _trace_id(t), 'step order violated: %s' % bad,
                  loc=EXECUTOR_MOD, extra={'trace': t.short()})
+
+
+def _asks_for_action_only(t: Trace) -> bool:
+    """the path took `exe_atc_and_skip_assertions` to be given (not None)"""
+    for test, truth in t.path.guards:
+        txt = unparse(test)
+        if 'exe_atc_and_skip_assertions' not in txt:
+            continue
+        positive = True
+        node = test
+        while isinstance(node, ast.UnaryOp) and isinstance(node.op, ast.Not):
+            positive = not positive
+            node = node.operand
+        if isinstance(node, ast.Compare) and len(node.ops) == 1 and unparse(node.comparators[0]) == 'None':
+            if isinstance(node.ops[0], (ast.Is, ast.Eq)):
+                positive = not positive
+        if truth == positive:
+            return True
+    return False
 
 
 def _trace_id(t: Trace) -> str:
@@ -880,3 +907,72 @@ def clause_i(c: Check):
     have = {k.name for k in tr if isinstance(k, EnumMember)}
     c.expect(need <= have, 'C01-i', 'conf-status-translation/total',
              'configuration failure kinds without translation: %s' % sorted(need - have), conf.loc())
+
+
+# ---------------------------------------------------------------- j
+# state a step executor keeps on purpose (read and confirmed)
+STEP_EXECUTOR_STATE = {
+    ('ValidateSymbolsExecutor', '__symbols'):
+        'the table of the symbols defined so far: every definition validated is added to it - accumulating it IS the step',
+}
+
+
+def clause_j(c: Check):
+    """every instruction handed to a step executor is executed: on every returning path of `apply(instruction)` of
+    each ControlledInstructionExecutor (12 classes: the validation and main steps of every phase) a method of the
+    instruction is called - a step executor has no business deciding that an instruction "need not" run (the order
+    and the halting are decided by execute_phase_prim alone, C01-f)"""
+    ix, fo = c.ix, c.fo
+    m = ix.module('exactly_lib.execution.impl.phase_step_executors')
+    base = ix.cls('exactly_lib.execution.impl.single_instruction_executor:ControlledInstructionExecutor')
+    n = 0
+
+    class H(Hooks):
+        def inline(self, fd, st):
+            return False
+
+    for k in m.all_classes:
+        if k is base or base not in ix.mro(k):
+            continue
+        ap = k.methods.get('apply')
+        if ap is None:
+            continue
+        n += 1
+        ip = ap.positional_params()[1].arg
+        for p in util.func_paths(ix, fo, ap, H()):
+            if p.kind != 'return':
+                continue
+            on_instr = []
+            for e in p.calls():
+                recv = e.data.get('recv')
+                if recv is None:
+                    cv = e.data.get('callee_val')
+                    recv = cv.origin[1] if isinstance(cv, Sym) and cv.origin and cv.origin[0] == 'attr' else None
+                r = util.root_sym(recv) if recv is not None else None
+                if isinstance(r, Sym) and r.origin and r.origin[:2] == ('param', ip):
+                    on_instr.append(e)
+            guards = [('' if t else 'not ') + unparse(g) for g, t in p.guards]
+            c.expect(bool(on_instr), 'C01-j', 'step-executor-executes/%s' % k.name,
+                     '%s.apply returns without calling the instruction%s: the instruction is silently left out of the '
+                     'step' % (k.name, (' when ' + ', '.join(guards)) if guards else ''), ap.loc())
+    c.floor('C01-j', 'step executors', n, 12)
+    # ... and keeps nothing from one instruction to the next: a step executor is applied to every instruction of its
+    # step in turn; state kept in it makes what is done for one instruction depend on the ones before it
+    from .purity import Purity
+    pu = Purity(ix)
+    n2 = 0
+    for mod in ('exactly_lib.execution.impl.phase_step_executors', 'exactly_lib.execution.partial_execution.impl.symbol_validation',
+                'exactly_lib.execution.impl.symbol_validation'):
+        for k in ix.module(mod).all_classes:
+            if k is base or base not in ix.mro(k):
+                continue
+            ap = k.methods.get('apply')
+            if ap is None:
+                continue
+            n2 += 1
+            changed = [a for a in pu.self_mutations(ap) if (k.name, a) not in STEP_EXECUTOR_STATE]
+            c.expect(not changed, 'C01-j', 'step-executor-keeps-no-state/%s' % k.name,
+                     '%s.apply changes %s of the executor: what is done for an instruction depends on the instructions '
+                     'handled before it (e.g. a usage "already validated" is skipped although it stands in another '
+                     'context)' % (k.name, ', '.join('self.' + a for a in changed)), ap.loc())
+    c.floor('C01-j', 'step executors checked for state', n2, 13)
